@@ -308,7 +308,14 @@ fn gen_case_inner(rng: &mut Rng, idx: u64) -> Value {
             (name.to_string(), "unknown")
         }
         3..=5 => { let (_, pd) = diag::draw(rng, 6); (pd_to_json(&pd).to_string(), "pd") }
-        6 => { let (_, pd) = diag::draw(rng, 6); files[SIM_PATH] = json!(pd_to_json(&pd).to_string()); (SIM_PATH.to_string(), "path") }
+        6 => {
+            // a path stays a path whatever its last component looks like: "./L2a1" is the user's file,
+            // not the table entry L2a1
+            let path = if rng.chance(1, 3) { *rng.pick(&["./L2a1", "/sim/L4a1", "sim/K3a1", "./3_1.json", "/sim/3_1", "./x3_1", "/sim/5_2.json", "L2a1.json", "my-L2a1"]) } else { SIM_PATH };
+            let (_, pd) = diag::draw(rng, 6);
+            files[path] = json!(pd_to_json(&pd).to_string());
+            (path.to_string(), "path")
+        }
         7 => (rng.pick(&["99_1", "3_9999", "K3a1", "foo", "/sim/missing.json", "../etc/passwd", "/tmp", "/"]).to_string(), "unknown"),
         10 => {
             // a FILE with malformed content: files are parsed by a different code path than inline codes
@@ -429,6 +436,11 @@ fn pd_text_of(case: &Value, stats: &[rt::RunStats]) -> Option<String> {
             let want = resource_path(case["argv"][2].as_str().unwrap());
             stats.first().and_then(|s| s.disk_log.iter().rev().find(|(p, _)| *p == want)).and_then(|(_, r)| r.as_ref().ok()).and_then(|b| String::from_utf8(b.clone()).ok())
         }
+        // a path means that file: what counts is what the read of THAT path delivered
+        "path" => {
+            let want = case["argv"][2].as_str().unwrap();
+            stats.first().and_then(|s| s.disk_log.iter().rev().find(|(p, _)| p == want)).and_then(|(_, r)| r.as_ref().ok()).and_then(|b| String::from_utf8(b.clone()).ok())
+        }
         _ => stats.first().and_then(|s| s.disk_log.last()).and_then(|(_, r)| r.as_ref().ok()).and_then(|b| String::from_utf8(b.clone()).ok()),
     }
 }
@@ -487,7 +499,7 @@ impl Check for C20 {
             "unknown" => PdClass::Malformed("no such link".into()),
             _ => match pd_text_of(case, &ex.stats) {
                 Some(t) => classify_pd_text(&t),
-                None => PdClass::Malformed("file could not be read".into()),
+                None => PdClass::Malformed("the link file was not read or could not be read".into()),
             },
         };
         let must_fail = !supported(cmd, ctype, c, reduced) || injected || matches!(pd_class, PdClass::Malformed(_))
